@@ -27,8 +27,8 @@ import irgen as ir
 import vcommon as vc
 
 PID = "C20"
-CLI = os.path.join(vc.HARNESS, "target", "debug", "conjure-rust")
-VH = os.path.join(vc.HARNESS, "target", "debug", "vh")
+CLI = os.path.join(vc.TARGET, "debug", "conjure-rust")
+VH = os.path.join(vc.TARGET, "debug", "vh")
 BASE = os.path.join(vc.OUT, "c20")
 P = ir.prim
 
